@@ -86,6 +86,9 @@ type Exec struct {
 	pcSet      map[string]bool
 	curThread  int
 	events     []raceEvent
+	trace      []opRec
+	outcome    int
+	hasOutcome bool
 	modelCtx   *bctx
 	lenModel   map[string]*Term
 	guess      map[string]string
@@ -119,6 +122,7 @@ type PathResult struct {
 	BoundedNA     int
 	CacheHits     int
 	ArithOnly     int
+	Trace         *opTrace
 	StageL        int
 	StageG        int
 	BoundTooSmall int
@@ -1431,6 +1435,9 @@ func (e *Exec) runPath(entry *ssa.Function) (res *PathResult) {
 		}
 		res.Steps = e.steps
 		res.Decisions = e.decs
+		if e.hasOutcome {
+			res.Trace = &opTrace{Ops: e.trace, Outcome: e.outcome}
+		}
 	}()
 	e.callFunction(entry, nil)
 	e.stop("done", "")
